@@ -70,9 +70,15 @@ def decJson : Decision → List (String × Json)
   | .convertError s t => [("dec", "convertError"), ("src", toJson s), ("tgt", toJson t)]
   | .pyError => [("dec", "pyError")]
 
+/-- for a converted node: the old form is not accepted at the target (the converter has to change it) -/
+def mustChangeJson (e : Entry) : List (String × Json) :=
+  match e.node.kind, e.decision with
+  | .op d o v, .convert _ t => [("mustChange", toJson (!genAccepts (fold d) o v t))]
+  | _, _ => []
+
 def entryJson (e : Entry) : Json :=
   Json.mkObj ([("id", toJson e.node.id), ("opsets", reqsJson e.opsets),
-               ("qualified", toJson true)] ++ decJson e.decision)
+               ("qualified", toJson true)] ++ decJson e.decision ++ mustChangeJson e)
 
 def handle (req : Json) : Json :=
   match (do
